@@ -31,6 +31,7 @@ LEVEL_TEXT = ("Ordering rules read from the CFG of the code generators (emitted 
               "LLVM, direct calls for Python), template rules for the fault exit and the flag mask, constant agreement "
               "between csts.py and vm_mngr.h. The attributes that switch the fault tests on are shown to over-approximate the memory accesses of the block. Decides that the commit/test phases cannot be reordered or skipped and that the fault "
               "exit restores PC; does not execute any instruction.")
+LEVEL_TEXT += " The C back end's phase order is decided on the sequence of segments gen_c_code emits (partial evaluation) for the 8 combinations reads/writes/exception."
 ASSUMPTIONS = ["CPython ast; clang macro table", "the LLVM back end is read, never run", "no subclass overrides the phase "
                "methods of CGen (re-checked on every run over miasm/arch/*/jit.py)"]
 
